@@ -9,8 +9,15 @@ Decides:
   b. the traversal follows code edges and redirects and retains exactly what it
      saw: both `retain` calls test `seen_pending.has_seen`, nothing is queued
      from a type edge, SeenPendingCollection is set-backed.
+  c. only code imports decide static-versus-dynamic when dependencies are
+     recorded (shared with C01-d): otherwise a full build and a code-only build
+     disagree on the flag and pruning cannot reconcile them.
+  d. every graph-level field is accounted for by prune_types: kept with a
+     reason, or re-derived from what survives; `has_node_specifier` is
+     recomputed from the modules that are still reachable.
 """
 from .lib import *
+from . import c01
 
 EXPLANATION = "Must-pass-through of the clearing assignments per module kind in ModuleGraph::prune_types (T2), field classification of the type-bearing ADT fields (T1), and the retain predicates / worklist type (T5, type rule)."
 NOT_DECIDED = "observational equality with a second, code-only build"
@@ -28,6 +35,17 @@ CLEARED = {
 KEPT = {
     ("graph::Dependency", "maybe_code"): "code edge",
     ("graph::JsModule", "maybe_source_map_dependency"): "asset edge (source map), not a type edge; also kept by a code-only build",
+}
+# graph-level fields: how prune_types must leave them
+GRAPH_FIELDS = {
+    "graph_kind": "set",         # -> CodeOnly (C17-a)
+    "roots": "kept",             # same roots in both builds
+    "module_slots": "retained",  # retain(seen) (C17-b)
+    "imports": "cleared",        # configured imports are type-only (C17-a)
+    "redirects": "retained",     # retain(seen) (C17-b)
+    "has_node_specifier": "recomputed",  # a node: module may have been reachable through types only
+    "packages": "kept",          # not decided here: package bookkeeping is not part of the observed set of C17
+    "npm_dep_graph_result": "kept",  # result of an npm resolution that prune_types does not redo
 }
 TYPEY = ("graph::Resolution", "graph::TypesDependency", "graph::FastCheckTypeModuleSlot")
 
@@ -154,3 +172,41 @@ def run(F, R, tier):
     R.ob("C17-b", "worklist is set-backed (each specifier processed once)", bool(t) and t[0].startswith("indexmap::IndexSet<"), "SeenPendingCollection.inner is %s" % t, spc["file"])
     roots = [n for n in pt["_nodes"] if n.get("k") == "MethodCall" and n["name"] == "extend" and mentions_field(n, "roots", "graph::ModuleGraph")]
     R.ob("C17-b", "the walk starts from the graph's roots", len(roots) == 1, "roots not seeded", pt["file"])
+
+    # ---------------- C17-c ------------------------------------------------
+    c01.is_dynamic_writes(F, R, tag="C17-c")
+
+    # ---------------- C17-d ------------------------------------------------
+    mg = F.adt("graph::ModuleGraph")
+    for f in mg["variants"][0]["fields"]:
+        R.ob("C17-d", "graph field %s is classified" % f["name"], f["name"] in GRAPH_FIELDS,
+             "ModuleGraph.%s is not in the prune table: decide whether a code-only build would have a different value" % f["name"], mg["file"])
+    hn = [n for n in pt["_nodes"] if n["k"] == "Assign" and field_of(n["l"]) == "has_node_specifier" and peel(peel(n["l"]).get("e", {})).get("lid") == pt["body"]["params"][0].get("lid")]
+    if R.ob("C17-d", "prune_types re-derives has_node_specifier", len(hn) == 1,
+            "prune_types leaves has_node_specifier as computed for the full graph: a node: built-in that was reachable only through types is gone, but the graph still reports one", pt["file"]):
+        bad, _ = must_pass(F, pt["body"]["value"], lambda n: n is hn[0])
+        bad = [nd for kd, nd in bad if not (kd == "return" and any(x.kind == "cond" and not x.pol and (x.node.get("fn") or "").endswith("GraphKind::include_types") for x in guards_at(F, nd)))]
+        R.ob("C17-d", "has_node_specifier is re-derived on every path that prunes", not bad, "a path through prune_types skips the assignment", where(bad[0]) if bad else "")
+        src = peel_value(hn[0]["r"])
+        ok = False
+        why = "assigned `%s`" % expr_text(hn[0]["r"])
+        if src.get("res") == "local":
+            defs = local_defs(pt, src["lid"])
+            lets = [d for d in defs if d[0] == "let"]
+            asg = [d for d in defs if d[0] == "assign"]
+            init_false = len(lets) == 1 and lets[0][1] is not None and peel(lets[0][1]).get("v") is False
+            trues = []
+            for n in pt["_nodes"]:
+                if n["k"] == "Assign" and peel(n["l"]).get("lid") == src["lid"]:
+                    trues.append(n)
+            arms_ok = bool(trues)
+            for t in trues:
+                g = guards_at(F, t)
+                in_node = any(x.kind == "pat" and x.pol and "graph::Module::Node" in pat_text(x.pat) and "graph::Module::Js" not in pat_text(x.pat) for x in g)
+                arms_ok = arms_ok and peel(t["r"]).get("v") is True and in_node
+            # every walked Node module sets it: the Node arm of the per-kind match contains the assignment
+            node_arms = [a for a in (mm[0]["arms"] if mm else []) if "graph::Module::Node" in pat_text(a["pat"])]
+            covered = bool(node_arms) and all(any(is_within(t, a["body"]) for t in trues) for a in node_arms)
+            ok = init_false and arms_ok and covered
+            why = "flag local: init false=%s, set only for walked node: modules=%s, every Node arm sets it=%s" % (init_false, arms_ok, covered)
+        R.ob("C17-d", "has_node_specifier is true exactly if a node: module survives the walk", ok, why, where(hn[0]))
